@@ -57,8 +57,9 @@ def build_native(prop, spec, outdir):
            src] + [os.path.join(root, s) for s in spec.get('sources', [])] + \
           list(spec.get('cxxflags', [])) + ['-o', exe]
     if spec.get('lib'):
-        cmd += [os.path.join(root, '_build/libgalois/libgalois_shmem.a'),
-                os.path.join(root, '_build/libsupport/libgalois_support.a')]
+        # the prebuilt archives are only used for code the replay does not
+        # compile from the working tree itself (spec['sources'])
+        cmd += ['/repo/_build/libgalois/libgalois_shmem.a', '/repo/_build/libsupport/libgalois_support.a']
     cmd += ['-lpthread', '-lnuma'] if spec.get('lib') else ['-lpthread']
     p = subprocess.run(cmd, capture_output=True, text=True, timeout=600)
     if p.returncode != 0:
